@@ -1,1 +1,129 @@
--- C16: property theorems (to be filled in)
+/-
+C16 — property theorems.
+
+Universally quantified over: the oracle deciding the exit status of every external command at every
+invocation index (`o.status : Nat → Cmd → Nat` — every set of failing steps), the answers to every
+environment query, the initial file system (any tree), the option-argument strings (opaque tokens)
+and, for `rerun_*`, the length of the invocation history.  The scripts are the GENERATED terms
+`Gen.atlasR21`, `Gen.cmsR5`, `Gen.cmsR7`.
+-/
+import FaxVerif.C16.Proofs
+import FaxVerif.Generated.C16Scripts
+namespace FaxVerif.C16
+
+/-! ## Generic: a `Strict` script never exits 0 after a failed step -/
+
+/-- **C16.failstop** — for EVERY script of the `Strict` discipline (`set -e` first and never switched
+off, no `|| true`, nothing the translator did not recognise), every invocation, every oracle and every
+file system: if the run exits 0 then every step in its log succeeded. Proved once, by induction over
+the script. -/
+theorem failstop (script : List Sh) (hs : strictScript script = true) (i : Inv) (o : Oracle) (inv : Nat) (fs : FS) :
+    (run script i o inv fs).code = 0 → ∀ e ∈ (run script i o inv fs).log, e.2 = 0 := by
+  match script, hs with
+  | .setE true :: rest, hs =>
+    simp only [strictScript] at hs
+    have hpost := post_execBlock (o := o) (inv := inv) rest
+      { (St.init i) with errexit := true, last := .lit 0 } { fs := fs, log := [] } hs
+      ⟨rfl, rfl, by intro e he; simp at he⟩
+    unfold run scriptTree
+    have hb : execBlock (Sh.setE true :: rest) (St.init i) =
+        execBlock rest { (St.init i) with errexit := true, last := .lit 0 } := by
+      simp [execBlock, exec, seqRes, Tree.bind]
+    rw [hb, interp_bind]
+    unfold Post at hpost
+    cases hr : interp o inv (execBlock rest { (St.init i) with errexit := true, last := .lit 0 }) { fs := fs, log := [] } with
+    | mk r d' =>
+      rw [hr] at hpost
+      cases r with
+      | norm st' =>
+        simp only [interp]
+        intro _
+        exact hpost.allOk
+      | exit c =>
+        simp only [interp]
+        exact hpost
+
+/-- failstop is not vacuous: the three generated scripts are `Strict` -/
+theorem strict_atlasR21 : strictScript Gen.atlasR21 = true := by decide +kernel
+theorem strict_cmsR5 : strictScript Gen.cmsR5 = true := by decide +kernel
+theorem strict_cmsR7 : strictScript Gen.cmsR7 = true := by decide +kernel
+
+/-- the discipline is needed: the same job step followed by `|| true` reports success after a failure -/
+theorem failstop_needs_strict_counterexample :
+    ∃ (script : List Sh) (i : Inv) (o : Oracle) (fs : FS),
+      (run script i o 0 fs).code = 0 ∧ ∃ e ∈ (run script i o 0 fs).log, e.2 ≠ 0 := by
+  refine ⟨[.setE true, .orTrue (.cmd ⟨false, [.lit "cmsRun"]⟩ [])], ⟨[], 0, 0⟩,
+    ⟨fun _ _ => 1, fun _ => false⟩, ⟨fun _ => .absent⟩, ?_, ?_⟩
+  · decide
+  · exact ⟨(⟨.ext, [[.lit "cmsRun"]]⟩, 1), by decide, by decide⟩
+
+/-! ## Generic: from a successful abstract exploration to the Spec of every concrete run -/
+
+theorem rel_init (o : Oracle) (inv : Nat) (fs : FS) (facts : List (SPath × Fact))
+    (hf : ∀ pf ∈ facts, pf.2.holdsK (fs pf.1).kind = true) :
+    Rel o inv fs { facts := facts } { fs := fs, log := [] } :=
+  ⟨fun p => by simp [evalLookup, symLookup], hf, by intro qb h; simp at h, by simp⟩
+
+/-- If the abstract exploration of the script's decision tree finds `leafP` at every leaf, then
+EVERY concrete run (any oracle, any tree-shaped file system satisfying the assumed facts) satisfies
+`SpecOK`. -/
+theorem spec_of_check (b : Backend) (script : List Sh) (i : Inv) (allOk live : Bool) (facts : List (SPath × Fact))
+    (hc : absCheck allOk (leafP b i live) (scriptTree script i) { facts := facts } = true)
+    (o : Oracle) (inv : Nat) (fs : FS) (hwf : WF fs)
+    (hall : allOk = true → ∀ k c, o.status k c = 0)
+    (hf : ∀ pf ∈ facts, pf.2.holdsK (fs pf.1).kind = true) :
+    SpecOK (obsOf b script i o inv fs live) = true := by
+  obtain ⟨ab', hr', hp'⟩ := absCheck_sound o inv fs hwf allOk hall (leafP b i live) (scriptTree script i)
+    { facts := facts } { fs := fs, log := [] } (rel_init o inv fs facts hf) hc
+  have := leafP_sound hr' hwf b i live _ hp'
+  unfold obsOf run
+  exact this
+
+/-! ## The command lines covered -/
+
+def insertAll {α : Type} (x : α) : List α → List (List α)
+  | [] => [[x]]
+  | y :: ys => (x :: y :: ys) :: (insertAll x ys).map (y :: ·)
+
+def perms {α : Type} : List α → List (List α)
+  | [] => [[]]
+  | x :: xs => (perms xs).flatMap (insertAll x)
+
+def sublists {α : Type} : List α → List (List α)
+  | [] => [[]]
+  | x :: xs => sublists xs ++ (sublists xs).map (x :: ·)
+
+/-- getopts events for a sequence of option letters; `-d` / `-o` get the next fresh token -/
+def mkEvs : List String → Nat → List Ev
+  | [], _ => []
+  | l :: r, k =>
+    if l = "d" ∨ l = "o" then { opt := l, arg := some k } :: mkEvs r (k + 1)
+    else { opt := l, arg := none } :: mkEvs r k
+
+def mkInv (letters : List String) (nrest : Nat) : Inv :=
+  let evs := mkEvs letters 0
+  { evs := evs, nargs := evs.length + (evs.filter (fun e => e.arg.isSome)).length + nrest, nrest := nrest }
+
+def flagSets : List (List String) := sublists ["c", "r", "d", "o"]
+
+/-- every subset of {-c, -r, -d x, -o y} in every order, plus some repetitions -/
+def validInvs : List Inv :=
+  ((flagSets.flatMap perms) ++ [["d", "d"], ["o", "o"], ["c", "c"], ["r", "c", "r"], ["d", "o", "d"], ["o", "d", "o", "c"]]).map (mkInv · 0)
+
+/-- an unknown flag (or a missing option argument) after any set of valid flags -/
+def badInvs : List Inv := flagSets.map (fun l => mkInv (l ++ ["?"]) 0) ++ [mkInv ["?", "c"] 0, mkInv ["c", "?", "r"] 1]
+
+/-- stray operands after any set of valid flags -/
+def strayInvs : List Inv := flagSets.map (mkInv · 1) ++ [mkInv [] 2, mkInv ["r"] 3]
+
+def allInvs : List Inv := validInvs ++ badInvs ++ strayInvs
+
+/-! ## Per script: the abstract exploration succeeds (kernel computation on the generated term) -/
+
+def checkAll (b : Backend) (script : List Sh) (invs : List Inv) : Bool :=
+  invs.all (fun i => absCheck false (leafP b i false) (scriptTree script i) {})
+
+set_option maxRecDepth 1000000 in
+theorem check_atlasR21 : checkAll .atlas Gen.atlasR21 allInvs = true := by decide +kernel
+
+end FaxVerif.C16
